@@ -40,7 +40,8 @@ META = {
         "Proved for ALL inputs over the reals: if the structure neighbours are an exact proper rigid image of >=3 non-collinear template "
         "atoms (and the eigen-solver meets its contract) the placed atom has exactly the template's distance to each of them and the "
         "template's bond angles; a +-120 degree rotation about the heavy-heavy bond keeps bond length and angle to the axis atom and lands "
-        "at squared distance 3 rho^2 (no coincident atoms when rho>0); every rotation about a bond through the parent (all optimisation / "
+        "at squared distance 3 rho^2 (no coincident atoms when rho>0); with two of three hydrogens present (120 degrees apart) the +120/+240 choice of "
+        "rebuild_tetrahedral lands at squared distance 3 rho^2 from BOTH; every rotation about a bond through the parent (all optimisation / "
         "debumping moves) keeps the distances to both axis atoms, the bond angle and all distances among atoms moved together; the no-bond "
         "water hydrogen sits exactly 1 A from O. Generated obligations (vm_compute, lifted with forallb_forall): for every amino-acid "
         "template x dihedral x terminus flags the moved set is, over ALL atoms, exactly the component beyond the pivot bond - hydrogens "
@@ -63,6 +64,7 @@ META = {
 THEOREMS = [
     "C05_fit3_exact_geometry",
     "C05_tetra_120",
+    "C05_tetra3_choice",
     "C05_rotation_keeps_parent_geometry",
     "C05_unit_placement",
     "C05_all_atom_subtree_table",
@@ -157,6 +159,8 @@ class Monitor:
         self.unknown_sites = {}
         self.last_fit = None
         self.seq = 0
+        self.recent = []  # last rotate_tetrahedral calls with the moved atom objects
+        self.choices = []  # rebuild_tetrahedral numbonds == 3: the +120 / +240 choice
 
     def __enter__(self):
         from pdb2pqr import aa, na
@@ -225,6 +229,8 @@ class Monitor:
             p1 = [float(v) for v in atom1.coords]
             p2 = [float(v) for v in atom2.coords]
             r = orig_rt(cls, atom1, atom2, angle)
+            mon.recent.append({"a1": p1, "a2": p2, "angle": float(angle), "atoms": moved, "before": before})
+            del mon.recent[:-3]
             if len(mon.rots) < 4000:
                 frames = _caller_sites()
                 mon.rots.append({"a1": p1, "a2": p2, "angle": float(angle), "before": before, "after": [[float(v) for v in a.coords] for a in moved], "site": frames[0][0] if frames else "?"})
@@ -279,6 +285,21 @@ class Monitor:
                         if a1 == a1 and a0 == a0:
                             ad = max(ad, abs(a1 - a0))
                 info["src_bond"], info["src_angle"] = bd, ad
+        if info["site"] == "Amino.rebuild_tetrahedral" and frames and frames[0][1].f_locals.get("numbonds") == 3:
+            fl = frames[0][1].f_locals
+            hat = fl.get("hatoms") or []
+            rec = self.recent
+            if len(hat) == 2 and len(rec) == 3 and all(r["angle"] == 120.0 for r in rec) and any(x is hat[0] for x in rec[0]["atoms"]):
+                i = next(k for k, x in enumerate(rec[0]["atoms"]) if x is hat[0])
+                self.choices.append({
+                    "a1": rec[0]["a1"], "a2": rec[0]["a2"], "h0": rec[0]["before"][i],
+                    "h1": [float(v) for v in hat[1].coords],
+                    "n1": [float(v) for v in fl["newcoords1"]], "n2": [float(v) for v in fl["newcoords2"]],
+                    "out": [float(v) for v in atom.coords], "site": "Amino.rebuild_tetrahedral[numbonds=3]",
+                    "residue": str(res), "name": info["name"],
+                })
+            else:
+                self.choices.append({"unmodelled": True, "site": "Amino.rebuild_tetrahedral[numbonds=3]", "residue": str(res), "name": info["name"]})
         if info["site"] == "Water.finalize" and len(frames) and "closeatom" in frames[0][1].f_locals:
             fl = frames[0][1].f_locals
             ca, oa = fl.get("closeatom"), fl.get("atom")
@@ -399,6 +420,11 @@ def check_added_atoms(ctx, bio, label, case, stats=None):
                         continue
                     if getattr(pn, "added", 0) and getattr(pn, "_c05", {}).get("seq", 0) > info.get("seq", 0):
                         continue  # the angle was made when the LATER atom was placed: judged there
+                    if nb in PSEUDO and angle_deg(tc(ref.map[nb]), tc(tb), tc(ta)) < 90.0:
+                        # template artefact: the pseudo atom C-1 of the PRO templates sits 66.7 degrees from CD
+                        # (no bond angle between real template atoms is below 90); not a prescription for CD
+                        ctx.count(f"template-pseudo-atom-artefact:{res.name} {nb}-{b}-{a.name}")
+                        continue
                     a1 = angle_deg(pn.coords, pb.coords, a.coords)
                     a0 = angle_deg(tc(ref.map[nb]), tc(tb), tc(ta))
                     if a1 != a1 or a0 != a0:
@@ -539,6 +565,138 @@ def build_cases(ctx):
             except ValueError:
                 continue
             cases.append((f"packed {'-'.join(s1)} | {'-'.join(s2)} gap {gap}", B.to_pdb(a + bb), OPTION_SETS[i % 2 * 5], "packed"))
+    # helices (different backbone conformation, side chains relaxed by the builder)
+    for seq in (["ALA", "LEU", "LYS", "GLU", "MET", "GLN", "ARG", "PHE"], ["SER", "ILE", "THR", "VAL", "ASN", "TRP", "TYR", "HIS"]):
+        cases.append((f"helix {'-'.join(seq)}", B.to_pdb(B.build_peptide(seq, helix=True, rotation=B.random_rotation(nrng))), OPTION_SETS[len(cases) % 3], "helix"))
+    cases += hydrogen_pattern_cases(ctx, rng, nrng)
+    cases += truncation_cases(ctx, rng, nrng)
+    return cases
+
+
+# ---- inputs that ALREADY carry hydrogens, with every subset of each hydrogen group missing ---------
+
+SUBSETS = {1: [(0,)], 2: [(0,), (1,), (0, 1)], 3: [(0,), (1,), (2,), (0, 1), (0, 2), (1, 2), (0, 1, 2)]}
+
+
+def hydrogen_groups(atoms):
+    """[(residue key, parent name, [hydrogen names in input order])] of a built structure with hydrogens:
+    hydrogens grouped by the heavy atom they are bonded to (nearest heavy atom of the residue)."""
+    out = []
+    for res in B.residues_of(atoms):
+        heavy = [a for a in res if not a.is_hydrogen]
+        groups = {}
+        for h in res:
+            if not h.is_hydrogen or not heavy:
+                continue
+            par = min(heavy, key=lambda a: float(np.linalg.norm(a.xyz - h.xyz)))
+            groups.setdefault(par.name, []).append(h.name)
+        for par, hs in groups.items():
+            out.append((res[0].reskey, par, hs))
+    return out
+
+
+def drop_pattern(atoms, k):
+    """Delete, in EVERY hydrogen group of the structure, the k-th non-empty subset of its hydrogens
+    (k mod number of subsets; groups of 1, 2, 3 hydrogens have 1, 3, 7 subsets)."""
+    gone = set()
+    waters = {a.reskey for a in atoms if a.resname in ("HOH", "WAT")}
+    for key, par, hs in hydrogen_groups(atoms):
+        subs = SUBSETS.get(len(hs))
+        if not subs:
+            continue
+        if key in waters:
+            # a water that keeps H2 but lacks H1 is never completed (Water.finalize returns when H2 exists) and the
+            # run aborts on its non-integral charge: nothing is added, nothing for C05 to judge - H2 or both are dropped
+            subs = [tuple(i for i, h in enumerate(hs) if h != "H1")] if k % 2 else [tuple(range(len(hs)))]
+        for i in subs[k % len(subs)]:
+            gone.add((key, hs[i]))
+    return B.reserial(B.delete_atoms(atoms, lambda a: (a.reskey, a.name) in gone))
+
+
+def alias_names(atoms, rng):
+    """Rename hydrogens to one of the template's alternative names (1HB, 2HZ, HN, HW ...) where the alias is unambiguous."""
+    dmap = B.definitions().map
+    out = []
+    n = 0
+    for a in atoms:
+        ref = dmap.get("WAT" if a.resname in ("HOH", "WAT") else a.resname)
+        if ref is not None and a.is_hydrogen:
+            cands = sorted(alt for alt, tgt in ref.altnames.items() if tgt == a.name and alt not in ref.map and len(alt) <= 4 and (alt[0].isdigit() or alt in ("HN",)))
+            if cands and rng.random() < 0.8:
+                a = B.replace(a, name=rng.choice(cands))
+                n += 1
+        out.append(a)
+    return out, n
+
+
+def hydrogen_pattern_cases(ctx, rng, nrng):
+    cases = []
+    aa20 = list(B.STANDARD_AA)
+    rng.shuffle(aa20)
+    # PRO first in one group (N-terminal PRO has H, H2 only), the other first residues carry an NH3+ group
+    aa20.remove("PRO")
+    groups = [["PRO"] + aa20[:3]] + [aa20[i : i + 4] for i in range(3, 19, 4)]
+    groups.append(["LYN", "HIP", "ASH", "GLH", "CYM"])
+    k0 = rng.randrange(7)
+    for gi, g in enumerate(groups):
+        pep = B.build_peptide(g, hydrogens=True, rotation=B.random_rotation(nrng), origin=tuple(nrng.uniform(-20, 20, 3)))
+        extra = []
+        if gi % 2 == 0:
+            extra = B.waters(3, around=pep, rng=nrng, min_dist=3.0, hydrogens=True)
+        full = pep + extra
+        for k in range(7):
+            atoms = drop_pattern(full, k)
+            label = f"input hydrogens, subset {k} of every H group missing: {'-'.join(g)}" + (" + 3 waters" if extra else "")
+            sets = OPTION_SETS[:7] if ctx.thorough else [OPTION_SETS[(k0 + k + gi) % 7], OPTION_SETS[(k0 + k + gi + 3) % 7]]
+            for args in sets:
+                cases.append((label, B.to_pdb(B.reserial(atoms)), args, "input-H"))
+        # alias hydrogen names (old PDB style), subset 1 and 4 missing
+        for k in (1, 4) if not ctx.thorough else range(7):
+            atoms, n = alias_names(drop_pattern(full, k), rng)
+            if n:
+                cases.append((f"input hydrogens with alias names ({n} renamed), subset {k} missing: {'-'.join(g)}", B.to_pdb(B.reserial(atoms)), OPTION_SETS[(k + gi) % 6], "input-H-alias"))
+    # nucleotides that already carry hydrogens (3-point fits only: Nucleic has no rebuild_tetrahedral)
+    for seq, rna in (("ACGT", False), ("ACGU", True)):
+        st = B.build_strand(list(seq), rna=rna, hydrogens=True, rotation=B.random_rotation(nrng))
+        for k in range(7) if ctx.thorough else ((k0 + (1 if rna else 0)) % 7, (k0 + 3) % 7, (k0 + 5) % 7):
+            cases.append((f"{'RNA' if rna else 'DNA'} {seq} with input hydrogens, subset {k} missing", B.to_pdb(B.reserial(drop_pattern(st, k))), ["--ff=AMBER"] if k % 2 else ["--ff=CHARMM", "--nodebump"], "input-H-nucleic"))
+    return cases
+
+
+def side_chain_depths(resname):
+    """{heavy side-chain atom: bond distance from CA} (template graph without N, C, O)."""
+    bonds = B.template_bonds(resname)
+    depth, todo = {"CA": 0}, ["CA"]
+    while todo:
+        u = todo.pop(0)
+        for v in bonds.get(u, []):
+            if v in ("N", "C", "O") or v.startswith("H") or v not in bonds or v in depth:
+                continue
+            depth[v] = depth[u] + 1
+            todo.append(v)
+    depth.pop("CA")
+    return depth
+
+
+def truncation_cases(ctx, rng, nrng):
+    """Each residue type with its side chain cut off at every depth (all heavy atoms >= d bonds from CA missing)."""
+    cases = []
+    k = 0
+    for rn in B.STANDARD_AA:
+        dep = side_chain_depths(rn)
+        if not dep:
+            continue
+        for d in range(1, max(dep.values()) + 1):
+            k += 1
+            if not ctx.thorough and (k + ctx.seed) % 2:
+                continue  # quick: every second (residue, depth), alternating with the seed
+            gone = {a for a, x in dep.items() if x >= d}
+            npad = max(6, (len(gone) * 11) // 5 + 2)  # ALA = 5 heavy atoms; keep the missing fraction below REPAIR_LIMIT
+            pos = rng.randrange(1, npad - 1)
+            seq = ["ALA"] * pos + [rn] + ["ALA"] * (npad - pos)
+            atoms = B.build_peptide(seq, rotation=B.random_rotation(nrng))
+            atoms = B.reserial(B.delete_atoms(atoms, lambda a, gone=gone, rn=rn: a.resname == rn and a.name in gone))
+            cases.append((f"{rn} side chain missing from depth {d} ({' '.join(sorted(gone))})", B.to_pdb(atoms), OPTION_SETS[k % 4], "truncated"))
     return cases
 
 
@@ -630,8 +788,18 @@ def fit_key(r):
     return core.sha([r["n"], r["refs"], r["defs"], r["atom"]])
 
 
-def tie_primitives(ctx, fits, rots, units, limit):
+def tie_primitives(ctx, fits, rots, units, limit, choices=()):
     terms, meta = [], []
+    for r in list(choices)[:limit]:
+        if r.get("unmodelled"):
+            ctx.broke("correspondence-broken", "rebuild_tetrahedral numbonds == 3 no longer has the modelled shape (three 120-degree rotations, two existing hydrogens)", json.dumps(r), {"type": "site", "site": r["site"]})
+            continue
+        init = np.array(r["a2"]) - np.array(r["a1"])
+        nrm = float(np.linalg.norm(init))
+        rad = math.pi * 120 / 180.0
+        d = float(np.linalg.norm(np.array(r["h1"]) - np.array(r["n1"])))
+        terms.append(f"F_rebuild3 {c15.fh(nrm)} {c15.fh(math.cos(rad))} {c15.fh(math.sin(rad))} {c15.fh(d)} {c15.cpt(r['a1'])} {c15.cpt(r['a2'])} {c15.cpt(r['h0'])}")
+        meta.append(("rebuild3 (+120/+240 choice)", r, r["out"]))
     for r in fits[:limit]:
         terms.append(f"F_find_coordinates {r['n']} {c15.cpts(r['refs'])} {c15.cpts(r['defs'])} {c15.cpt(r['atom'])}")
         meta.append(("find_coordinates", r, r["out"]))
@@ -678,7 +846,9 @@ def run(ctx):
         "search: every atom with .added in the final biomolecule of real pdb2pqr runs on builder structures (5 shuffled groups of the 20 residues + "
         "protonation variants, each residue at N-terminal / internal / C-terminal position through rotations of the sequence; DNA/RNA strands; waters "
         "bonded to the solute, to each other, isolated, alone, with partial input hydrogens; deleted side-chain heavy atoms; packed pairs forcing "
-        "debumping; propka titration at pH 2 / 12.5) x option/force-field sets, plus tests/data proteins; oracle = template bond lengths and angles of "
+        "debumping; propka titration at pH 2 / 12.5; helices; structures that ALREADY carry hydrogens (peptides of all 20 residues + variants, N-terminal NH3+/PRO NH2+, waters, DNA/RNA) with "
+        "every non-empty subset of every hydrogen group (1/2/3 hydrogens on one heavy atom: 1/3/7 subsets) deleted, also written with alias names (1HB, HN ...); every residue "
+        "type with its side chain cut off at every depth from CA) x option/force-field sets, plus tests/data proteins; oracle = template bond lengths and angles of "
         "residue.reference with tolerance 0.05 A + d and 5 + 115 d degrees (d = measured distortion of the input atoms around the bonded partner), "
         "min distance 0.1 A, bond lists with the creation parent. tie: exhaustive moveable-set comparison (all templates x dihedrals x 4 flag sets, all "
         "atoms) and bit-exact replay of observed find_coordinates / rotate_tetrahedral / 1 A placements. non-trivial = the added atom has a bonded "
@@ -709,7 +879,7 @@ def run(ctx):
             ctx.count("corpus")
     cases += build_cases(ctx)
     boost = not ok or not corr_ok
-    fits, rots, units = {}, [], []
+    fits, rots, units, choices = {}, [], [], []
     stats = {}
     sites = {}
     unknown = {}
@@ -724,6 +894,7 @@ def run(ctx):
             fits.setdefault(fit_key(r), r)
         rots += mon.rots[:40]
         units += mon.units
+        choices += mon.choices
         for s, n in mon.creates.items():
             sites[s] = sites.get(s, 0) + n
         for s, n in mon.unknown_sites.items():
@@ -742,6 +913,7 @@ def run(ctx):
             fits.setdefault(fit_key(r), r)
         rots += mon.rots[:20]
         units += mon.units[:20]
+        choices += mon.choices[:40]
         for s, n in mon.creates.items():
             sites[s] = sites.get(s, 0) + n
         for s, n in mon.unknown_sites.items():
@@ -759,7 +931,7 @@ def run(ctx):
         two = [r for r in fl if r["n"] == 2]
         three = [r for r in fl if r["n"] != 2]
         lim = 1500 if ctx.thorough else 240
-        tie_primitives(ctx, two[: lim // 3] + three[: lim - min(len(two), lim // 3)], rots, units, lim)
+        tie_primitives(ctx, two[: lim // 3] + three[: lim - min(len(two), lim // 3)], rots, units, lim, choices)
         # the fit theorem's hypothesis on observed calls: >= 3 non-collinear template points
         for r in three:
             s = c15.template_sine(r["defs"][: r["n"]])
